@@ -54,14 +54,14 @@ CHECKS = {
     "C06": ("exploration",
             "purity monitor: buffer sha256 before/after, field-level digests of to_json() across two in-process runs and fresh processes under PYTHONHASHSEED 0/1/2/random, random observer words with digest before/between/after",
             "The same (bytes, path) is extracted twice in one process and once per fresh worker process under four hash-seed settings; field-level digests of canonical to_json() must agree everywhere; "
-            "the caller's buffer must be unchanged; a seeded random word over 13 observers (full text, units, unit accessors, images, bytes, tables, metadata, to_json) must leave every later observation and the JSON unchanged. Earlier results are kept alive and re-digested after later extractions with other inputs and path arguments (a result, once returned, never changes); context groups of inputs that share a sub-key but differ in the context that gives it meaning.",
+            "the caller's buffer must be unchanged; a seeded random word over 13 observers (full text, units, unit accessors, images, bytes, tables, metadata, to_json) must leave every later observation and the JSON unchanged. Earlier results are kept alive and re-digested after later extractions with other inputs and path arguments (a result, once returned, never changes); context groups of inputs that share a sub-key but differ in the context that gives it meaning. An observer-order oracle compares what each observer returns after the others (in both orders, incl. abandoned iterators) with what it returns on an untouched result.",
             "A relative non-existent path keeps host state out of file metadata; differences are localised two levels deep.",
             "DESIGN.md §8 C06"),
     "C07": ("exploration",
             "recording stubs on the 21 extractor functions + README-derived routing table; path grammar x 5 mimetypes configurations, each in its own worker process",
             "A routing table transcribed by hand from the README decides which extractor every documented extension/alias must reach; a path grammar (all known extensions, case variants, "
             "dots/spaces/unicode/URL/compound forms) is evaluated under default, emptied and hostile MIME databases; is_supported_file == get_extractor-succeeds, only the not-supported error, "
-            "alias == base, MIME-independence of routed extensions, and read_file dispatch observed through stubs on real temp files. In-process sequences ask the same paths again after every change of the MIME database (configurations swapped, single types added / removed).",
+            "alias == base, MIME-independence of routed extensions, and read_file dispatch observed through stubs on real temp files. In-process sequences ask the same paths again after every change of the MIME database (configurations swapped, single types added / removed); fresh processes in which 8 threads ask for a never-imported extractor (or sibling modules of one sub-package) at once; read_file with relative, tilde- and variable-like names; extensions spelled with characters a caseless comparison maps to ASCII letters.",
             "Trusts the README tables as the specification of routing; Windows path semantics are not observable on this host.",
             "DESIGN.md §8 C07"),
     "C08": ("exploration",
@@ -77,14 +77,14 @@ CHECKS = {
             "CPython audit-hook file-system monitor (open/mkdir/remove/rename/link/chmod/utime/scandir/rmtree/mkdtemp..., dir_fd resolved via /proc/self/fd), canary files, result scan, private-TMPDIR post-state, x 4 consumer behaviours",
             "Archives in 23 layouts over a hostile member-name grammar (absolute, ../ chains, mixed separators, drive letters, empty, very long, unicode, names of existing host files, tar symlink/hardlink/device/fifo members, "
             "7z entries with and without data streams, hidden/fork/nested/unsupported/oversize members), also byte-mutated, are consumed by exhausting, closing early, abandoning and failing in the consumer; every audit event whose "
-            "resolved path lies outside the worker's private TMPDIR, a changed canary, canary or host-file text in a result, a non-empty TMPDIR afterwards, or a result from a member that must be skipped is a violation.",
+            "resolved path lies outside the worker's private TMPDIR, a changed canary, canary or host-file text in a result, a non-empty TMPDIR afterwards, or a result from a member that must be skipped is a violation. Nested archives are real archives under every name the router hands to the archive reader (asked at run time); a third of the archives run under a member limit lowered through configure_archive_extraction() and a history of further option calls.",
             "stat()/exists() carry no audit event; interpreter-internal read-only opens (*.py/*.pyc/*.so, mimetypes tables) are excluded.",
             "DESIGN.md §8 C09"),
     "C10": ("exploration",
             "reference-writer archives (zipfile, tarfile, independent 7z writer) over generated member documents; ordered comparison of read_archive results with stand-alone extraction of each member",
             "For 23 layouts (ZIP stored/deflated, TAR plain/gz/bz2/xz, 7z Copy/LZMA/LZMA2 x solid/one-folder-per-file/pairs x plain/encoded header, mixed coders) archives of 0..10 generated documents with "
             "directories, empty, hidden, macOS-fork, unsupported and nested-archive members interleaved are read; results must equal, in archive order, the results of extracting each eligible member's bytes on its own "
-            "under the same archive!/member path (canonical to_json), carry the member's file name and path label, and one corrupted member must not change any other member's result.",
+            "under the same archive!/member path (canonical to_json), carry the member's file name and path label, and one corrupted member must not change any other member's result. Members come under every spelling of their type the public entry points accept, with repeated names, consecutive dots, highly compressible content, and after option calls that do not mention the member limit.",
             "The 7z writer follows 7zFormat.txt and is validated by the repository's own reader on solid layouts; AES/BCJ2 coders are not produced.",
             "DESIGN.md §8 C10"),
     "C11": ("exploration",
@@ -127,13 +127,13 @@ CHECKS = {
             "Messages over random header sets, RFC 2047 B/Q words in five charsets, folded headers, address lists with quoted commas and groups, four transfer encodings, nested multiparts and 0..4 attachments "
             "(incl. fixture documents and nested .eml) are extracted through both carriers; subject, addresses with display names, date (as an instant), message-id, bodies, attachment name/type/bytes, mailbox count/order/boundaries "
             "and iterate_supported_attachments() vs extracting the attached bytes directly are compared exactly (CRLF/LF and the writer's own >From escaping are transport).",
-            "No exactness claim for .msg (no independent writer): the two fixtures are only run through the accessors.",
+            "No exactness claim for .msg (no independent writer): the two fixtures are only run through the accessors. Mailboxes are written in three escape styles (mboxrd, mboxo, look-alikes only) and the oracle knows which.",
             "DESIGN.md §8 C16"),
     "C17": ("exploration",
             "grammar-generated HTML bodies with unique visible/hidden tokens through four carriers (html, mhtml, epub chapter, MSG html-to-text helper) in sandboxed workers; token oracle",
             "A grammar of visible blocks interleaved with removable elements (script/style/noscript/iframe/object/embed/applet, comments) whose content ranges over text, void tags, self-closing forms, "
             "nested removable elements, unbalanced end tags and CDATA; hidden tokens must never appear, visible tokens before/after must all survive. Constructs whose inside/outside is debatable are kept out of the judged set.",
-            "The MSG path is exercised through the HTML-to-text helper directly (no synthetic .msg container).",
+            "The MSG carrier is a minimal Outlook .msg written with vlib/gen/cfb.py and read through read_msg_format_mail; EPUB chapters are also judged behind a chapter that ends in one of 23 open-ended ways.",
             "DESIGN.md §8 C17"),
     "C18": ("fault_enumeration",
             "simulated Graph service behind request_func with close/read counters; reference walk + independent filter implementation; complete enumeration of (request index x fault kind) per listing run, each followed by a healthy retry",
